@@ -24,6 +24,7 @@ ASSUMPTIONS = [
     "values are valid field-values without leading/trailing whitespace (add/parse trim or reject those)",
 ]
 SHARDS = 16
+READY = True
 
 NAMES = ["x-a", "X-A", "X-a", "x-A", "Set-Cookie", "set-cookie", "SET-COOKIE", "b"]
 VALUE_ALPHABET = "ab,;=\"\\1 \t\x80\xff~!:"
